@@ -12,7 +12,7 @@ from ..program import AnalysisError, ClassInfo, FuncEnv, dotted, norm_stmt
 from ..report import Collector
 
 # Roots shared between *concurrent* runs of a chart (C08); the caller's input_kwargs dict is per call (C07 only)
-C08_SHARED = ('shared:dag', 'shared:global', 'shared:self', 'shared:chart')
+C08_SHARED = ('shared:dag', 'shared:global', 'shared:self', 'shared:chart', 'shared:ctx', 'shared:param')
 
 
 def _run_path_graphs(ctx: Ctx) -> Dict[str, Graph]:
